@@ -19,6 +19,8 @@ pub struct Report {
     pub evaluations: u64,
     pub counters: BTreeMap<String, u64>,
     pub distinct: HashSet<u64>,
+    /// named secondary distinct-sets (e.g. interleaving signatures), reported as counts
+    pub distinct_named: BTreeMap<String, HashSet<u64>>,
     /// cases distinct by construction (complete enumerations), not hashed
     pub distinct_direct: u64,
     pub samples: Vec<Value>,
@@ -61,6 +63,9 @@ impl Report {
     /// record a non-trivial case signature (hashed) for distinct counting
     pub fn sig(&mut self, h: u64) {
         self.distinct.insert(h);
+    }
+    pub fn sig_in(&mut self, set: &str, h: u64) {
+        self.distinct_named.entry(set.to_string()).or_default().insert(h);
     }
     pub fn sample(&mut self, v: Value) {
         if self.samples.len() < MAX_SAMPLES {
@@ -109,6 +114,9 @@ impl Report {
             }
         }
         self.distinct.extend(o.distinct);
+        for (k, v) in o.distinct_named {
+            self.distinct_named.entry(k).or_default().extend(v);
+        }
         self.distinct_direct += o.distinct_direct;
         for s in o.samples {
             if self.samples.len() < MAX_SAMPLES {
@@ -195,6 +203,9 @@ pub fn evidence_json(rep: &Report, meta: &EvidenceMeta, unknown_viol: usize, kno
     let mut obs = Map::new();
     for (k, v) in &rep.counters {
         obs.insert(k.clone(), json!(v));
+    }
+    for (k, v) in &rep.distinct_named {
+        obs.insert(format!("distinct[{}]", k), json!(v.len()));
     }
     cov.insert("observed".into(), Value::Object(obs));
     if !rep.notes.is_empty() {
